@@ -68,6 +68,44 @@ func rulesC17(c *Ctx) {
 		c.Check(bad == "", "R1", con, ia.Pos(), fmt.Sprintf("the list is non-empty in all %d reachable abstract states", len(envs)),
 			"the list may be empty in abstract state ("+bad+") — input such as a leading backslash indexes at -1 (panic) or glues the byte onto the previous argument")
 	})
+	// the index may sit in a function literal of the tokeniser (flush()): there it is guarded by an
+	// explicit non-emptiness test of the same list
+	for _, an := range f.AnonFuncs {
+		afacts := factsFor(an)
+		eachInstr(an, func(b *ssa.BasicBlock, _ int, in ssa.Instruction) {
+			ia, ok := in.(*ssa.IndexAddr)
+			if !ok {
+				return
+			}
+			bo, ok := ia.Index.(*ssa.BinOp)
+			if !ok || bo.Op != token.SUB || !isLenOf(bo.X, ia.X) {
+				return
+			}
+			if k, ok := constInt(bo.Y); !ok || k != 1 {
+				return
+			}
+			n1++
+			guarded := afacts.HoldsOnAllEdges(b, func(fs factSet) bool {
+				for k := range fs {
+					cmp, ok := k.v.(*ssa.BinOp)
+					if !ok {
+						continue
+					}
+					kv, isK := constInt(cmp.Y)
+					if !isK || !isLenOf(cmp.X, ia.X) && !sameLenOperand(cmp.X, ia.X) {
+						continue
+					}
+					nonEmpty := (cmp.Op == token.NEQ && k.pol && kv == 0) || (cmp.Op == token.EQL && !k.pol && kv == 0) || (cmp.Op == token.GTR && k.pol && kv == 0) || (cmp.Op == token.GEQ && k.pol && kv == 1)
+					if nonEmpty {
+						return true
+					}
+				}
+				return false
+			})
+			c.Check(guarded, "R1", fmt.Sprintf("last-element index #%d in %s", n1, fname(an)), ia.Pos(), "guarded by a non-emptiness test of the same list",
+				"the list may be empty where its last element is addressed — index -1 (panic)")
+		})
+	}
 	c.Floor("R1", n1, 1)
 
 	// ---- R2 bytes are not re-encoded ---------------------------------------------------
@@ -1072,4 +1110,18 @@ func oneByteBuf(p *Prog, v ssa.Value, depth int) bool {
 		return n > 0 && okAll
 	}
 	return false
+}
+
+// sameLenOperand: lenCall is len(x) with x the same variable as y (two loads of one captured variable).
+func sameLenOperand(lenCall, y ssa.Value) bool {
+	lc, ok := lenCall.(*ssa.Call)
+	if !ok {
+		return false
+	}
+	if b, ok := lc.Call.Value.(*ssa.Builtin); !ok || b.Name() != "len" || len(lc.Call.Args) != 1 {
+		return false
+	}
+	la, ok1 := lc.Call.Args[0].(*ssa.UnOp)
+	lb, ok2 := y.(*ssa.UnOp)
+	return ok1 && ok2 && la.Op == token.MUL && lb.Op == token.MUL && la.X == lb.X
 }
